@@ -478,10 +478,10 @@ fn nontrivial_c11(c: &Case, r: &RunResult) -> bool {
 
 pub fn prop_def2(id: &str) -> Option<PropDef> {
     match id {
-        "C01" => Some(PropDef { id: "C01", generate: gen_c01, check: check_c01, nontrivial: nontrivial_c01, project: ident, deadline_ms: 60000 }),
-        "C02" => Some(PropDef { id: "C02", generate: gen_c02, check: check_c02, nontrivial: nontrivial_c02, project: ident, deadline_ms: 20000 }),
-        "C10" => Some(PropDef { id: "C10", generate: gen_c10, check: check_c10, nontrivial: nontrivial_c10, project: ident, deadline_ms: 20000 }),
-        "C11" => Some(PropDef { id: "C11", generate: gen_c11, check: check_c11, nontrivial: nontrivial_c11, project: ident, deadline_ms: 20000 }),
+        "C01" => Some(PropDef { id: "C01", generate: gen_c01, check: check_c01, nontrivial: nontrivial_c01, project: ident, deadline_ms: 60000, check_model: None }),
+        "C02" => Some(PropDef { id: "C02", generate: gen_c02, check: check_c02, nontrivial: nontrivial_c02, project: ident, deadline_ms: 20000, check_model: None }),
+        "C10" => Some(PropDef { id: "C10", generate: gen_c10, check: check_c10, nontrivial: nontrivial_c10, project: ident, deadline_ms: 20000, check_model: None }),
+        "C11" => Some(PropDef { id: "C11", generate: gen_c11, check: check_c11, nontrivial: nontrivial_c11, project: ident, deadline_ms: 20000, check_model: None }),
         other => crate::props3::prop_def3(other),
     }
 }
